@@ -47,6 +47,9 @@ func TestVerif_C02(t *testing.T) {
 	defer r.Finish()
 	r.Rule("case = same knob tuples as C01; oracle = per-message handled counter (must be 1 for every accepted message when the actor was never restarted; at most 1 always) and the stuck-state predicate (accepted but unhandled messages with the actor running and no progress); non-trivial = >1 sender, >1 turn and >=40 messages; distinct by knob tuple and seed")
 	rng := r.Rand(2)
+	// end-of-turn boundary rounds (backlog sized around the throughput budget,
+	// racing Tells, structural lost-wake-up predicate): see c02_boundary_verif_test.go
+	c02RunBoundary(t, r, r.Rand(22), r.N(48, 1500))
 	n := r.N(64, 1500)
 	for i := 0; i < n; i++ {
 		k := c01GenKnobs(rng, vfMailboxKinds, c01AllDisturbs)
@@ -74,6 +77,9 @@ func TestVerif_C03(t *testing.T) {
 	defer r.Finish()
 	r.Rule("case = FIFO mailbox kinds only (unbounded, segmented, fair, bounded, non-blocking bounded with capacity >= traffic), goroutine senders / actor senders / BatchTell mixed with Tell, counts crossing the 256-slot segment size; oracle = strictly increasing sequence per sender at the receiver; non-trivial = >1 sender and >= 40 messages per sender; distinct by knob tuple and seed")
 	rng := r.Rand(3)
+	// stash clause: relative arrival order of stashed messages under mixes of
+	// Unstash and UnstashAll (see c03_stash_verif_test.go)
+	c03RunStashOrder(t, r, r.Rand(33), r.N(240, 20000))
 	n := r.N(48, 1000)
 	for i := 0; i < n; i++ {
 		k := c01GenKnobs(rng, vfFIFOKinds, []string{"none", "batchtell", "actorsenders", "none"})
